@@ -107,6 +107,15 @@ Definition choose (hb w : Z) (p : Q) : option Z :=
   if negb (hb =? max_hash) && (1 <=? hb) && (1 <=? w) && bad_p p then None
   else Some (choose_with binom_cdf hb w p).
 
+(* the function after the repair proposed in fixes/C04_choose_panics_committee_exceeds_total.diff
+   ("if p > 1 { p = 1 }" at the top of choose): never panics *)
+Definition choose_repaired (hb w : Z) (p : Q) : option Z :=
+  Some (choose_with binom_cdf hb w (if Qlt_bool 1 p then 1%Q else p)).
+
+(* [repaired] is what the harness observed on the working tree *)
+Definition choose_gen (repaired : bool) : Z -> Z -> Q -> option Z :=
+  if repaired then choose_repaired else choose.
+
 (* ---- bytes --------------------------------------------------------------- *)
 (* big-endian, fixed width (binary.BigEndian.PutUint32 / Hash.Bytes) *)
 Fixpoint be_bytes (len : nat) (x : Z) : list Z :=
@@ -151,15 +160,15 @@ Section Protocol.
 
   (* computePriority: max over i = 0..j of Keccak(hash ++ i.Bytes()), starting
      from the zero hash, strict comparison *)
-  Fixpoint prio_loop (fuel : nat) (hash i mx : Z) : Z :=
+  Fixpoint prio_loop (fuel : nat) (hbytes : list Z) (i mx : Z) : Z :=
     match fuel with
     | O => mx
     | S f =>
-      let h := keccak (be_bytes 32 hash ++ min_be i) in
-      prio_loop f hash (i + 1) (if mx <? h then h else mx)
+      let h := keccak (hbytes ++ min_be i) in
+      prio_loop f hbytes (i + 1) (if mx <? h then h else mx)
     end.
   Definition compute_priority (hash j : Z) : Z :=
-    prio_loop (Z.to_nat (j + 1)) hash 0 0.
+    prio_loop (Z.to_nat (j + 1)) (be_bytes 32 hash) 0 0.
 
   (* VrfSortition: (value, proof, seats); None = panic *)
   Definition vrf_sortition_with (sk : SK) (seed index role threshold stake total : Z)
@@ -241,10 +250,11 @@ Definition opt_Z_eqb (a b : option Z) : bool :=
   end.
 
 (* the seat counts the band admits for (hb, w, p): exact quantile first *)
-Definition candidates (hb w : Z) (p : Q) : list (option Z) :=
-  match choose hb w p with
+Definition candidates (rep : bool) (hb w : Z) (p : Q) : list (option Z) :=
+  match choose_gen rep hb w p with
   | None => [None]
   | Some js =>
+    let p := if rep && Qlt_bool 1 p then 1%Q else p in
     let t := target_of hb in
     let F := binom_cdf w p in
     Some js
@@ -253,8 +263,8 @@ Definition candidates (hb w : Z) (p : Q) : list (option Z) :=
   end.
 
 (* is the implementation's answer [g] admissible for (hb, w, p)? *)
-Definition admissible (hb w : Z) (p : Q) (g : option Z) : bool :=
-  existsb (opt_Z_eqb g) (candidates hb w p).
+Definition admissible (rep : bool) (hb w : Z) (p : Q) (g : option Z) : bool :=
+  existsb (opt_Z_eqb g) (candidates rep hb w p).
 
 (* byte strings travel as one number: 1 followed by the bytes, base 256 *)
 Definition bytes_key (l : list Z) : Z := fold_left (fun acc b => acc * 256 + b) l 1.
@@ -282,20 +292,24 @@ Inductive case :=
 (* MakeM *)
 | CMakeM (seed role index : Z) (got : Z)   (* got: bytes_key of the 40 bytes *)
 (* computePriority(hash, j) with the Keccak values of the candidate inputs *)
-| CPrio (hash j : Z) (ktbl : list (Z * Z)) (got : Z)
+| CPrio (hash j : Z) (ktbl : list (Z * Z)) (got : Z)   (* ktbl is for inputs hash ++ _ *)
 (* VrfSortition: vtbl = (message, Evaluate output) observed; got_j = -1: panic *)
 | CSort (seed index role threshold stake total : Z) (vtbl : list (Z * Z)) (got_value got_j : Z)
 (* VrfVerifySortition: vtbl = (message, ProofToHash output) for the proof used *)
 | CVerify (seed index role subUsers threshold stake total : Z) (vtbl : list (Z * Z)) (got : Z)
 (* VrfVerifyPriority *)
 | CVerifyPrio (seed index role priority subUsers threshold stake total : Z)
-              (vtbl : list (Z * Z)) (ktbl : list (Z * Z)) (got : Z).
+              (vtbl : list (Z * Z)) (kh : Z) (ktbl : list (Z * Z)) (got : Z).
 
 Definition tbl_fun (tbl : list bool) (h : Z) : bool :=
   if h <? 0 then false else nth (Z.to_nat h) tbl true.
 
-Definition keccak_tbl (ktbl : list (Z * Z)) (m : list Z) : Z :=
-  match assoc_bytes m ktbl with Some v => v | None => 0 end.
+(* Keccak as a table: [ktbl] lists (suffix, value) for inputs kh ++ suffix,
+   kh being a 32-byte hash; any other input is unknown (0) *)
+Definition keccak_tbl (kh : Z) (ktbl : list (Z * Z)) (m : list Z) : Z :=
+  if bytes_key (firstn 32 m) =? 2 ^ 256 + kh then
+    match assoc_bytes (skipn 32 m) ktbl with Some v => v | None => 0 end
+  else 0.
 
 (* table-driven stand-ins for the VRF: keys and proofs are trivial, the value
    is whatever the implementation returned for that message *)
@@ -306,21 +320,21 @@ Definition p2h_tbl (vtbl : list (Z * Z)) (_ : unit) (m : list Z) (_ : unit) : op
 
 (* the seat count every regime of the band would give: hash value looked up
    under the model's own message *)
-Definition cands_for (vtbl : list (Z * Z)) (seed index role threshold stake total : Z)
+Definition cands_for (rep : bool) (vtbl : list (Z * Z)) (seed index role threshold stake total : Z)
   : list (option Z) :=
   if total =? 0 then [None]
   else match assoc_bytes (make_m seed role index) vtbl with
        | None => [None]
-       | Some hv => candidates hv stake (p_of threshold total)
+       | Some hv => candidates rep hv stake (p_of threshold total)
        end.
 
-Definition case_ok (c : case) : bool :=
+Definition case_ok (rep : bool) (c : case) : bool :=
   match c with
   | CSearch n tbl got => search n (tbl_fun tbl) =? got
-  | CChoose hb w p got => admissible hb w p got
+  | CChoose hb w p got => admissible rep hb w p got
   | CMakeM seed role index got => bytes_key (make_m seed role index) =? got
   | CPrio hash j ktbl got =>
-    compute_priority (keccak_tbl ktbl) hash j =? got
+    compute_priority (keccak_tbl hash ktbl) hash j =? got
   | CSort seed index role threshold stake total vtbl got_value got_j =>
     existsb (fun cj =>
                match vrf_sortition_with unit unit (ev_tbl vtbl) (fun _ _ _ => cj) tt
@@ -328,24 +342,27 @@ Definition case_ok (c : case) : bool :=
                | None => got_j =? -1
                | Some (v, _, j) => (v =? got_value) && (j =? got_j)
                end)
-            (cands_for vtbl seed index role threshold stake total)
+            (cands_for rep vtbl seed index role threshold stake total)
   | CVerify seed index role subUsers threshold stake total vtbl got =>
     existsb (fun cj =>
                sv_code (vrf_verify_sortition_with unit unit (p2h_tbl vtbl) (fun _ _ _ => cj)
                           tt seed index role tt subUsers threshold stake total) =? got)
-            (cands_for vtbl seed index role threshold stake total)
-  | CVerifyPrio seed index role priority subUsers threshold stake total vtbl ktbl got =>
+            (cands_for rep vtbl seed index role threshold stake total)
+  | CVerifyPrio seed index role priority subUsers threshold stake total vtbl kh ktbl got =>
     existsb (fun cj =>
-               pv_code (vrf_verify_priority_with unit unit (p2h_tbl vtbl) (keccak_tbl ktbl)
+               pv_code (vrf_verify_priority_with unit unit (p2h_tbl vtbl) (keccak_tbl kh ktbl)
                           (fun _ _ _ => cj) tt seed index role tt priority subUsers
                           threshold stake total) =? got)
-            (cands_for vtbl seed index role threshold stake total)
+            (cands_for rep vtbl seed index role threshold stake total)
   end.
 
-Fixpoint mismatches_from (i : N) (l : list case) : list N :=
+Fixpoint mismatches_from (rep : bool) (i : N) (l : list case) : list N :=
   match l with
   | [] => []
-  | c :: r => if case_ok c then mismatches_from (i + 1)%N r
-              else i :: mismatches_from (i + 1)%N r
+  | c :: r => if case_ok rep c then mismatches_from rep (i + 1)%N r
+              else i :: mismatches_from rep (i + 1)%N r
   end.
-Definition mismatches := mismatches_from 0%N.
+(* the code as it stands / after the proposed repair (the harness probes
+   choose with committee > total once and picks the matching one) *)
+Definition mismatches := mismatches_from false 0%N.
+Definition mismatches_repaired := mismatches_from true 0%N.
